@@ -13,3 +13,5 @@ def run(prog, rep):
     from ..rules import r_close as _rc
     _rc.run_fapl(prog, rep)
     _rc.run_hid_owner(prog, rep)
+    from ..rules import r_err as _re
+    _re.run_exists(prog, rep)
